@@ -49,6 +49,65 @@ def normalize (ws : List Int) : List Int :=
 not a multiple of a unit: represented as the pair (kept?, weights) -/
 def monitorKeeps (ws : List Int) : Bool := proper ws
 
+/-- `StatusMonitor.__init__`, position by position: the list it uses for reporting.
+`some ws` = exactly the loaded list (same order, same length: `stageWeights[i]` is the loaded
+weight of stage `i`); `none` = the uniform `1/n` fallback (not a multiple of a unit).  The
+code appends the weights in the order of the loaded status report, i.e. in stage order. -/
+def monitorWeights (ws : List Int) : Option (List Int) := if proper ws then some ws else none
+
+/-! ## One status check against a controller (snapshot semantics)
+
+`StatusMonitor.run/CheckStatus` reads from the controller: the current stage `cur`, the
+list `transit` of stages with a component that is still active and the list `finished` of
+stages all of whose components have been handled (both under `controller.comp_lock`, so they
+are taken at one instant), and then one progress value per active stage (`p k`, numerator
+over `scale`; `None` is read as 0).  It reports
+
+  Σ_{k ∈ {cur} ∪ (transit \ {cur})} p k · w k  +  Σ_{k ∈ finished, k ≠ cur} w k .
+
+`active_stages` is a dict (duplicates in `transit` collapse), the finished list is iterated
+as it is (an index occurring twice is added twice).  The model states the same sum position
+by position: stage `k` contributes `stageFactor k · w k`. -/
+
+/-- Σ_j f (k+j) · ws[j] -/
+def wsumFrom (f : Nat → Int) : Nat → List Int → Int
+  | _, [] => 0
+  | k, w :: ws => f k * w + wsumFrom f (k + 1) ws
+
+/-- Σ_k f k · ws[k] -/
+def wsum (f : Nat → Int) (ws : List Int) : Int := wsumFrom f 0 ws
+
+/-- what one `CheckStatus` multiplies the weight of stage `k` with (numerator over `scale`) -/
+def stageFactor (scale : Int) (cur : Nat) (transit finished : List Nat) (p : Nat → Int) (k : Nat) : Int :=
+  (if k = cur ∨ k ∈ transit then p k else 0)
+    + (((finished.filter (fun i => i != cur)).count k : Nat) : Int) * scale
+
+/-- the total progress one `CheckStatus` reports (numerator over `scale * one`) -/
+def checkTotal (scale : Int) (cur : Nat) (transit finished : List Nat) (p : Nat → Int) (ws : List Int) : Int :=
+  wsum (stageFactor scale cur transit finished p) ws
+
+/-- the progress values read from a list (`get_stage_status` answers; missing = 0) -/
+def readOf (ps : List Int) : Nat → Int := fun k => ps.getD k 0
+
+/-- A controller state at one instant.  `prog k` is what `get_stage_status k` reports
+(numerator over `scale`, 0 for a stage the controller does not know yet). -/
+structure Snap where
+  cur : Nat
+  transit : List Nat
+  finished : List Nat
+  prog : Nat → Int
+
+/-- What `Controller.comp_lock` guarantees for the two lists when they are read in one
+critical section (`get_stages_in_transit`: stages with an active node; `get_stages_finished`:
+known stages without an active node, each once), plus what the states mean for the
+progress of a stage: finished = complete, unknown = nothing done, otherwise within `[0, scale]`. -/
+structure Snap.Consistent (s : Snap) (scale : Int) : Prop where
+  disjoint : ∀ k, k ∈ s.transit → k ∉ s.finished
+  nodup : s.finished.Nodup
+  range : ∀ k, 0 ≤ s.prog k ∧ s.prog k ≤ scale
+  fin_complete : ∀ k, k ∈ s.finished → s.prog k = scale
+  idle_zero : ∀ k, k ∉ s.transit → k ∉ s.finished → s.prog k = 0
+
 /-- Σ over active stages of progress*weight + Σ over finished of weight.
 `ps` are (progress numerator over `scale`, weight) pairs; finished = progress `scale`. -/
 def progress : List (Int × Int) → Int
